@@ -136,6 +136,17 @@ UNITS.update({
         "complete": "unbounded: every message, signature object and public key satisfying the type invariants",
         "timeout": 900,
     },
+    "U-PK": {
+        "backend": "verus",
+        "template": "contracts/pk.vc",
+        "trusted": ["Verus 0.2026.09.13 / Z3; vstd",
+                    "model of bit_vec::BitVec (from_bytes, push, to_bytes, len, index) and of itertools chunks over its iterator (vx_chunk / vx_nchunks)",
+                    "usize::ilog2 = floor(log2) (assume_specification)", "Felt::new / value contracts (U-FELT)", "Polynomial::new (U-NTT-POLY)"],
+        "assumption_lines": [r"external_body", r"assume_specification"],
+        "dropped": [],
+        "complete": "unbounded: every byte string / every public key object of either variant",
+        "timeout": 900,
+    },
     "U-CODEC": {
         "backend": "verus",
         "template": "contracts/codec.vc",
@@ -228,6 +239,34 @@ PROPS.update({
         "level_text": "Every built-in panic obligation (index, slice range, unwrap, unreachable!/panic! arms, + - * << overflow as in an overflow-checked build) is discharged by Verus in decompress, verify, hash_to_point and the whole NTT path, for all inputs; Signature::from_bytes is total on every byte string of length <= 1300 and Felt::new on every i16 (Kani, complete).",
         "level_note": "Assumed panic-free: sha3, BitVec/itertools internals (modelled), Vec allocation. Partial: the two key decoders are covered separately.",
         "technique": "Verus built-in safety obligations on extracted real code + Kani full-domain harnesses",
+    },
+})
+
+PROPS.update({
+    "C06": {
+        "title": "Decoding is strict: only the canonical encoding of an object is accepted",
+        "level": "proof",
+        "quick": ["U-SIG", "U-PK", "U-SKF", "U-FELT"],
+        "thorough": [],
+        "undecided_clauses": ["SecretKey::from_bytes as a whole (header, length and variant checks, the three field loops) is not yet under contract; its per-field decoder is (U-SKF)"],
+        "assumptions": [],
+        "level_text": "Signature: complete Kani proof on the real code that from_bytes accepts a byte string of any length <= 1300 only if re-encoding reproduces it, and rejects everything that is not the variant's layout. PublicKey: unbounded Verus proof on the extracted text of from_bytes / to_bytes against the specification's layout predicate (header, 14-bit fields below q), with the theorems thm_pk_strict (accepted => to_bytes reproduces the input bit for bit) and thm_pk_roundtrip. Secret key: the field decoder/encoder pair is proved strict over all widths and bit patterns (Kani, real BitVec).",
+        "level_note": "Assumed: BitVec / itertools-chunks model in the Verus unit; Kani/CBMC; vstd. Secret-key whole-function strictness is listed as undecided.",
+        "technique": "Kani full-domain contract harnesses + Verus contracts on extracted real functions",
+    },
+    "C05": {
+        "title": "Keys and signatures survive serialisation: fixed sizes, exact round trip",
+        "level": "other",
+        "quick": ["U-SIG", "U-PK", "U-SKF", "U-FELT"],
+        "thorough": [],
+        "undecided_clauses": ["SecretKey::to_bytes/from_bytes whole-function round trip and the 1281/2305-byte size",
+                              "that key generation keeps f, g, F inside the encodable range (F8: ntru_gen never checks; no failing seed is known, so this is undecided, not a finding)",
+                              "'the decoded key signs messages that verify' reduces to C01"],
+        "assumptions": [],
+        "explanation": "Partial claim. Proved: signatures encode to exactly 666 / 1280 bytes and from_bytes(to_bytes(sig)) == sig for every signature object (Kani, complete); public keys encode to exactly 897 / 1793 bytes in the specification's layout and decode back to the same key (Verus, unbounded, theorems thm_pk_strict / thm_pk_roundtrip); every encodable secret-key field value round-trips through the field codec at every width (Kani). Not decided: the secret key as a whole and the range guarantee of key generation.",
+        "level_text": "Partial: proof-level for signature and public key, field-level for the secret key; see undecided clauses.",
+        "level_note": "Assumed: BitVec/chunks model, Kani/CBMC, Verus/Z3. The secret-key clauses listed as undecided are not claimed.",
+        "technique": "Kani full-domain contract harnesses + Verus contracts on extracted real functions",
     },
 })
 
